@@ -283,12 +283,12 @@ private def v1 : Exp (Ext ℚ) := .var "1"
 private def lin : Exp (Ext ℚ) := .bin .add v0 (.bin .mul (.num (.fin 2)) v1)
 private def lin' : Exp (Ext ℚ) := .bin .add (.var "x") (.bin .mul (.num (.fin 2)) (.var "y"))
 
-def exB : BModel (Ext ℚ) :=
+private def exB : BModel (Ext ℚ) :=
   { vars := [("x", .int 0 5), ("y", .bool), ("z", .bool)],
     constraints := [{ name := "c", lhs := lin, cmp := .le, rhs := .num (.fin 6), isAssert := false }],
     objective := some (.max, lin) }
 
-def exM : Model (Ext ℚ) :=
+private def exM : Model (Ext ℚ) :=
   { optType := .max, objective := lin',
     constraints := [{ name := "c", lhs := lin', cmp := .le, rhs := .num (.fin 6), isAssert := false }],
     domain := [{ name := "x", ty := .int 0 5, usage := 1 }, { name := "y", ty := .bool, usage := 1 },
@@ -304,7 +304,7 @@ example : inRange ["x", "y", "z"] lin = true := by
 example : toExp ["x"] lin = none := by
   simp [toExp, lin, v0, v1, i0, i1]
 
-theorem exB_intoModel : intoModel exB = some exM := by
+private theorem exB_intoModel : intoModel exB = some exM := by
   simp [intoModel, exB, exM, toExp, lin, lin', v0, v1, i0, i1]
 
 /-- `evalExpr_eq_eval_vals` applies: at `x = 3, y = 1` the builder's evaluator gives `5`, the value
